@@ -188,6 +188,96 @@ class Check:
         self.violations.append(dict(obligation=name, key=key, witness=w, replayed=None))
         return False
 
+    # ---- fan-out over worker processes
+    def parallel(self, items, fn, jobs=None):
+        """run fn(item) for every item, each in a forked copy of this process (the symbolic state built so far is shared
+        copy-on-write; z3 is used by one thread per process).  The workers' obligation counters, violations, inconclusive
+        notes and solver statistics are added to this Check; returns the list of fn's (picklable) return values in item order.
+        A worker that dies makes the check inconclusive - its share of the exploration was not done."""
+        import pickle, tempfile
+        jobs = jobs or int(os.environ.get('VERIF_JOBS', '12'))
+        items = list(items)
+        if jobs <= 1 or len(items) <= 1:
+            return [fn(it) for it in items]
+        tmpd = tempfile.mkdtemp(prefix='par', dir=BUILD)
+        pending, running, results = list(enumerate(items)), {}, {}
+
+        def snap():
+            return dict(obl={n: {k: v for k, v in o.items() if isinstance(v, (int, float)) and not isinstance(v, bool)} for n, o in self.obl.items()},
+                        nv=len(self.violations), ni=len(self.inconclusive), nn=len(self.notes), ns=len(self.samples),
+                        ex=[(dict(e.stats), e.solver.queries, e.solver.time, e.solver.unknown) for e in self.executors])
+
+        def child(i, it):
+            before = snap()
+            Replay._proc = None
+            try:
+                ret = fn(it)
+                err = None
+            except BaseException as e:       # noqa
+                import traceback
+                ret, err = None, ''.join(traceback.format_exception(type(e), e, e.__traceback__))[-2000:]
+            d = dict(ret=ret, err=err,
+                     obl={n: {k: v - before['obl'].get(n, {}).get(k, 0) for k, v in o.items() if isinstance(v, (int, float)) and not isinstance(v, bool)}
+                          for n, o in self.obl.items()},
+                     violations=self.violations[before['nv']:], inconclusive=self.inconclusive[before['ni']:],
+                     notes=self.notes[before['nn']:], samples=self.samples[before['ns']:],
+                     ex=[({k: v - b[0].get(k, 0) for k, v in e.stats.items() if isinstance(v, (int, float))}, e.solver.queries - b[1], e.solver.time - b[2],
+                          e.solver.unknown - b[3], set(e.models_used), set(e.fns_executed)) for e, b in zip(self.executors, before['ex'])])
+            with open(os.path.join(tmpd, f'{i}.tmp'), 'wb') as f:
+                pickle.dump(d, f)
+            os.rename(os.path.join(tmpd, f'{i}.tmp'), os.path.join(tmpd, f'{i}.pkl'))
+
+        def reap(pid, status):
+            i = running.pop(pid)
+            path = os.path.join(tmpd, f'{i}.pkl')
+            if not os.path.exists(path):
+                self.inconclusive.append(f'worker {i} ended without a result (status {status})')
+                results[i] = None
+                return
+            d = pickle.load(open(path, 'rb'))
+            os.unlink(path)
+            if d['err']:
+                self.inconclusive.append(f'worker {i} failed: {d["err"]}')
+            for n, o in d['obl'].items():
+                for k, v in o.items():
+                    self.obl[n][k] = self.obl[n].get(k, 0) + v
+            self.violations += d['violations']
+            self.inconclusive += d['inconclusive']
+            self.notes += d['notes']
+            for smp in d['samples']:
+                self.sample(smp)
+            for e, (st_d, q, t, u, mu, fe) in zip(self.executors, d['ex']):
+                for k, v in st_d.items():
+                    e.stats[k] = e.stats.get(k, 0) + v
+                e.solver.queries += q
+                e.solver.time += t
+                e.solver.unknown += u
+                e.models_used |= mu
+                e.fns_executed |= fe
+            results[i] = d['ret']
+
+        sys.stdout.flush()
+        sys.stderr.flush()
+        while pending or running:
+            while pending and len(running) < jobs:
+                i, it = pending.pop(0)
+                pid = os.fork()
+                if pid == 0:
+                    try:
+                        child(i, it)
+                    finally:
+                        os._exit(0)
+                running[pid] = i
+            pid, status = os.wait()
+            if pid in running:
+                reap(pid, status)
+        try:
+            os.rmdir(tmpd)
+        except OSError:
+            pass
+        self.workers = max(getattr(self, 'workers', 1), min(jobs, len(items)))
+        return [results[i] for i in range(len(items))]
+
     def note_path_problem(self, results, what):
         """unsupported / unroll / error paths make the obligations that depend on them inconclusive"""
         bad = [r for r in results if r.status in ('unsupported', 'unroll', 'error', 'timeout')]
@@ -289,6 +379,7 @@ class Check:
                 'inconclusive': self.inconclusive[:30],
                 'samples': self.samples or ['(no samples)'],
                 'notes': self.notes,
+                'worker_processes': getattr(self, 'workers', 1),
             },
             'assumptions': self.assumptions,
             'wall_s': round(time.time() - self.t0, 2),
